@@ -1,6 +1,6 @@
 (** C12 - Labels are canonical, stable identities confined to the project.
-    Statements only; the proofs are in Label/Proofs.v, Proofs_Path.v, Proofs_Site.v, Proofs_Record.v. *)
-From Dawn Require Import Base.Bytes Label.Model Label.Proofs Label.Proofs_Path Label.Proofs_Site Label.Proofs_Record.
+    Statements only; the proofs are in Label/Proofs.v, Proofs_Path.v, Proofs_Site.v, Proofs_Record.v, Proofs_Key.v. *)
+From Dawn Require Import Base.Bytes Label.Model Label.Proofs Label.Proofs_Path Label.Proofs_Site Label.Proofs_Record Label.Proofs_Key.
 Open Scope N_scope.
 
 (** 1. Every accepted label that has a name or has no kind re-parses, from its printed form, to itself. *)
@@ -26,6 +26,50 @@ Theorem relative_roundtrip : forall s pkg l r,
   (l_name r <> [] \/ l_kind r = []) -> parse (to_string r) = Some r.
 Proof. exact relative_roundtrip_proof. Qed.
 Print Assumptions relative_roundtrip.
+
+(** 3b. The printed label as an identity.  [site_dep pkg s] is what builtin_target stores in a target's dependency list
+    for deps=[s] written in package [pkg] (Parse, RelativeTo, String): the string the runner asks its host for and the
+    key of the dependency in the dependent's record.  It is the printed form of the label the spelling denotes; it
+    re-parses to that label; and it is a fixed point -- resolved again from any package it is stored as itself. *)
+Theorem dependency_key_stable : forall pkg s l r,
+  rooted pkg = true -> parse s = Some l -> relative_to l pkg = Some r -> (l_name r <> [] \/ l_kind r = []) ->
+  site_dep pkg s = Some (to_string r) /\
+  parse (to_string r) = Some r /\
+  forall pkg', site_dep pkg' (to_string r) = Some (to_string r).
+Proof. exact dependency_key_stable_proof. Qed.
+Print Assumptions dependency_key_stable.
+
+(** 3c. Keys are canonical: two spellings, written in any two packages, are stored under the same string exactly when
+    they denote the same label. *)
+Theorem dependency_key_canonical : forall pkg1 pkg2 s1 s2 l1 l2 r1 r2,
+  parse s1 = Some l1 -> relative_to l1 pkg1 = Some r1 -> (l_name r1 <> [] \/ l_kind r1 = []) ->
+  parse s2 = Some l2 -> relative_to l2 pkg2 = Some r2 -> (l_name r2 <> [] \/ l_kind r2 = []) ->
+  (site_dep pkg1 s1 = site_dep pkg2 s2 <-> r1 = r2).
+Proof. exact dependency_key_canonical_proof. Qed.
+Print Assumptions dependency_key_canonical.
+
+(** 3d. A target table keyed by printed labels ([table_of defs]; every label in it re-parses from its print, which
+    theorems 1 and 3 give for accepted labels) is found by ANY accepted spelling of a label it holds
+    ([site_get] = get_target / run: Parse, RelativeTo, table[String]), the entry found is the one of that label, and
+    no spelling reaches the entry of a different label. *)
+Theorem lookup_by_any_spelling : forall defs pkg s l r,
+  (forall d, In d defs -> parse (to_string d) = Some d) ->
+  parse s = Some l -> relative_to l pkg = Some r -> (l_name r <> [] \/ l_kind r = []) ->
+  (In r defs ->
+     site_get (map to_string defs) pkg s = Some (to_string r) /\
+     table_find (table_of defs) (to_string r) = Some r) /\
+  (forall v, site_dep pkg s = Some (to_string v) -> In v defs -> v = r).
+Proof. exact lookup_by_any_spelling_proof. Qed.
+Print Assumptions lookup_by_any_spelling.
+
+(** 3e. The runner's view: Project.LoadTarget re-parses a stored dependency string ([site_load_target]: Parse,
+    table[String]) and finds exactly the key it was given. *)
+Theorem load_target_finds_key : forall defs pkg s l r,
+  rooted pkg = true -> parse s = Some l -> relative_to l pkg = Some r -> (l_name r <> [] \/ l_kind r = []) ->
+  In r defs ->
+  forall d, site_dep pkg s = Some d -> site_load_target (map to_string defs) d = Some d.
+Proof. exact load_target_finds_key_proof. Qed.
+Print Assumptions load_target_finds_key.
 
 (** 4. An accepted source / generated-file path has no ".." component: joined under the project
     root it stays inside it.  ([rooted pkg] is the precondition under which Go's [pkg[2:]] is defined;
@@ -138,6 +182,15 @@ Example ex_sites :
   site_gen [47;119;47;112;114;111;106] [47;47] [46] = None /\
   site_src [47;119;47;112;114;111;106] [47;47] [46] = Some [47;119;47;112;114;111;106] /\
   gp_clean_comps [47;119;47;112;114;111;106] = [[119]; [112;114;111;106]].
+Proof. vm_compute. repeat split; reflexivity. Qed.
+
+(* deps=["///sub:gen"] (what package + "/sub:gen" evaluates to in the root BUILD.dawn), deps=["//sub/:gen"] and, from
+   //sub, deps=[":gen"] are all stored as "//sub:gen" *)
+Example ex_dep_keys :
+  site_dep [47;47] [47;47;47;115;117;98;58;103;101;110] = Some [47;47;115;117;98;58;103;101;110] /\
+  site_dep [47;47] [47;47;115;117;98;47;58;103;101;110] = Some [47;47;115;117;98;58;103;101;110] /\
+  site_dep [47;47;115;117;98] [58;103;101;110] = Some [47;47;115;117;98;58;103;101;110] /\
+  site_load_target [[47;47;115;117;98;58;103;101;110]] [47;47;115;117;98;58;103;101;110] = Some [47;47;115;117;98;58;103;101;110].
 Proof. vm_compute. repeat split; reflexivity. Qed.
 
 (* //a:x is a persisted label; its record is targets/a%2Fx *)
